@@ -10,6 +10,21 @@ CLEAN_ENV = {'PATH': '/usr/local/sbin:/usr/local/bin:/usr/sbin:/usr/bin:/sbin:/b
              'HOME': '/nonexistent', 'TZ': 'UTC'}
 
 
+import ctypes
+_libc = None
+
+
+def _pdeathsig():
+    # children die with the check (they live in their own session so that a timeout can kill the whole group)
+    global _libc
+    try:
+        if _libc is None:
+            _libc = ctypes.CDLL('libc.so.6', use_errno=True)
+        _libc.prctl(1, signal.SIGKILL)
+    except Exception:
+        pass
+
+
 class Res:
     __slots__ = ('rc', 'out', 'err', 'timeout', 'sig')
 
@@ -34,7 +49,7 @@ def run(cmd, cwd=None, env=None, timeout=60, stdin=None, merge=False, norand=Tru
     try:
         p = subprocess.Popen(cmd, cwd=cwd, env=e, stdin=subprocess.PIPE if stdin is not None else subprocess.DEVNULL,
                              stdout=subprocess.PIPE, stderr=subprocess.STDOUT if merge else subprocess.PIPE,
-                             start_new_session=True)
+                             start_new_session=True, preexec_fn=_pdeathsig)
     except OSError as ex:
         return Res(127, b'', str(ex).encode(), False)
     try:
